@@ -473,6 +473,19 @@ def describe_scale(B, A, clause, num, den):
 
 
 # ---- the job ----------------------------------------------------------------------
+class _Timer:
+    """CPU seconds per phase of one job (evidence / tuning only)."""
+
+    def __init__(self, acc):
+        self.acc = acc
+        self.t = time.process_time()
+
+    def __call__(self, phase):
+        now = time.process_time()
+        self.acc[phase] = round(self.acc.get(phase, 0.0) + now - self.t, 3)
+        self.t = now
+
+
 def font_job(args):
     """All transformations of one font; returns traces and notes.  Runs in a forked worker."""
     label, data, fontNumber, seed, tier, do = args
@@ -483,13 +496,15 @@ def font_job(args):
     from fontTools.ttLib.scaleUpem import scale_upem
     from . import c17_project as P
 
-    out = {"label": label, "traces": [], "skips": [], "stats": [], "errors": []}
+    out = {"label": label, "traces": [], "skips": [], "stats": [], "errors": [], "cpu": {}}
     rng = random.Random("%d|%s|%d" % (seed, label, fontNumber))
+    tm = _Timer(out["cpu"])
     try:
         order, twin = _prep(data, fontNumber)
     except Exception as e:
         out["skips"].append("font does not load/save untransformed (%s)" % type(e).__name__)
         return out
+    tm("prep")
     if len(order) < 3:
         out["skips"].append("fewer than 3 glyphs")
         return out
@@ -502,12 +517,14 @@ def font_job(args):
         out["skips"].append("projection of the untransformed font failed (%s: %s)" % (type(e).__name__, str(e)[:60]))
         return out
     meta0 = {"font": label, "n": len(order), "ngpos": plan["ngpos"]}
+    tm("plan")
     if "reorder" in do:
         try:
             B = _observe_reorder(twin, order, plan)
         except Exception as e:
             out["errors"].append("observe-before reorder %s: %s" % (label, traceback.format_exc()[-600:]))
             B = None
+        tm("reorder-observe-before")
         for kind, want in (permutations_for(order, rng, tier, big) if B else []):
             meta = dict(meta0, op="reorder", perm=kind)
             try:
@@ -515,6 +532,7 @@ def font_job(args):
                 try:
                     reorderGlyphs(f, list(want))
                     after = P.save(f)
+                    tm("reorder-transform")
                 except NotImplementedError as e:
                     out["skips"].append("reorderGlyphs refused: %s" % str(e)[:60])
                     continue
@@ -523,11 +541,13 @@ def font_job(args):
                     out["stats"].append({"raised": "%s reorder %s: %s: %s" % (label, kind, type(e).__name__, str(e)[:100])})
                     continue
                 A = _observe_reorder(after, want, plan)
+                tm("reorder-observe-after")
                 t = build_reorder_trace(B, A, want, meta)
                 t["meta"]["moved"] = sum(1 for a, b in zip(order, want) if a != b)
                 t["meta"]["want_order"] = list(want) if len(want) <= 60 else None
                 out["traces"].append((t, ("reorder", label, kind)))
                 t["_desc"] = {c: describe_reorder(B, A, [c, a]) for c, a in _prejudge_reorder(t)}
+                tm("reorder-trace")
             except Exception:
                 out["errors"].append("reorder %s %s: %s" % (label, kind, traceback.format_exc()[-800:]))
     if "scale" in do:
@@ -536,6 +556,7 @@ def font_job(args):
         except Exception:
             out["errors"].append("observe-before scale %s: %s" % (label, traceback.format_exc()[-600:]))
             B = None
+        tm("scale-observe-before")
         for target in (upem_targets(upem, rng, tier, big) if B else []):
             meta = dict(meta0, op="scale", upem=upem, target=target)
             try:
@@ -543,6 +564,7 @@ def font_job(args):
                 try:
                     scale_upem(f, target)
                     after = P.save(f)
+                    tm("scale-transform")
                 except NotImplementedError as e:
                     out["skips"].append("scale_upem refused: %s" % str(e)[:60])
                     continue
@@ -551,6 +573,7 @@ def font_job(args):
                     out["stats"].append({"raised": "%s scale %d->%d: %s: %s" % (label, upem, target, type(e).__name__, str(e)[:100])})
                     continue
                 A = _observe_scale(after, order, plan)
+                tm("scale-observe-after")
                 t, stats = build_scale_trace(B, A, target, meta, rng, 2500 if tier == "quick" else 20000)
                 g = Fraction(target, upem)
                 t["_desc"] = {}
@@ -562,6 +585,7 @@ def font_job(args):
                     out["skips"].append(s)
                 if stats["closure_skips"]:
                     out["skips"].append("HarfBuzz outline: closing line changed through accumulated rounding (glyphs)")
+                tm("scale-trace")
             except Exception:
                 out["errors"].append("scale %s %s: %s" % (label, target, traceback.format_exc()[-800:]))
     return out
